@@ -101,7 +101,7 @@ def splice(prog, f, stack=(), depth=0):
 # a local `let contains = |asn| ..; contains(a) || contains(b)`).  Used by analysis/predicates.py only.
 import re as _re
 
-_COMB = _re.compile(r"(?:option::Option::<T>::(is_some_and|is_none_or|map_or)|result::Result::<T, E>::(is_ok_and|is_err_and))$")
+_COMB = _re.compile(r"(?:option::Option::<T>::(is_some_and|is_none_or|map_or|map|and_then)|result::Result::<T, E>::(is_ok_and|is_err_and))$")
 _FNCALL = _re.compile(r"ops::(?:function::)?(Fn|FnMut|FnOnce)::call(_mut|_once)?$")
 DEEP_MAX = 4
 
@@ -125,7 +125,8 @@ def _op_local(o):
     return q["l"] if (q is not None and not q.get("p")) else None
 
 
-def deep_splice(prog, f, depth=0, stack=()):
+def deep_splice(prog, f, depth=0, stack=(), only=None):
+    """only: restrict to kinds, e.g. ("call",) = directly called closures, no combinators."""
     if depth >= DEEP_MAX:
         return f
     todo = []
@@ -135,9 +136,9 @@ def deep_splice(prog, f, depth=0, stack=()):
             continue
         nm = t["f"].get("name") or ""
         m = _COMB.search(nm)
-        if m:
+        if m and (only is None or "comb" in only):
             todo.append((bi, m.group(1) or m.group(2)))
-        elif _FNCALL.search(nm):
+        elif _FNCALL.search(nm) and (only is None or "call" in only):
             todo.append((bi, "call"))
     if not todo:
         return f
@@ -156,7 +157,7 @@ def deep_splice(prog, f, depth=0, stack=()):
         """Append the closure body; returns the entry block index (or None)."""
         if ck is None or ck not in prog.ix or ck in stack:
             return None
-        g = deep_splice(prog, prog.fn(ck), depth + 1, stack + (ck,))
+        g = deep_splice(prog, prog.fn(ck), depth + 1, stack + (ck,), only)
         if g.get("cor") or len(g["blocks"]) > MAX_BLOCKS or g["argc"] != 1 + len(arg_places):
             return None
         loff, boff = len(locs), len(blocks) + 1       # +1: the argument block comes first
@@ -207,12 +208,15 @@ def deep_splice(prog, f, depth=0, stack=()):
         ck = _closure_of_local(f, fl) if fl is not None else None
         if ol is None or ck is None:
             continue
-        is_opt = kind in ("is_some_and", "is_none_or", "map_or")
+        is_opt = kind in ("is_some_and", "is_none_or", "map_or", "map", "and_then")
         adt = opt if is_opt else res
+        wrap_some = kind == "map"           # Some(x) -> Some(f(x)); None -> None
+        none_agg = {"r": "agg", "k": "adt", "adt": opt, "adtn": "std::option::Option", "v": "None", "fn": [], "fields": []}
         # variant holding the payload handed to the closure, and the constant result of the other variant
-        if kind in ("is_some_and", "is_none_or", "map_or"):
+        if is_opt:
             pay_variant, pay_idx = "Some", 1
-            other = {"is_some_and": {"k": {"ty": "bool", "v": 0}}, "is_none_or": {"k": {"ty": "bool", "v": 1}}, "map_or": args[1] if len(args) == 3 else None}[kind]
+            other = {"is_some_and": {"k": {"ty": "bool", "v": 0}}, "is_none_or": {"k": {"ty": "bool", "v": 1}}, "map_or": args[1] if len(args) == 3 else None,
+                     "map": "none", "and_then": "none"}[kind]
         elif kind == "is_ok_and":
             pay_variant, pay_idx, other = "Ok", 0, {"k": {"ty": "bool", "v": 0}}
         else:
@@ -220,13 +224,85 @@ def deep_splice(prog, f, depth=0, stack=()):
         if other is None:
             continue
         pay_place = {"l": ol, "p": [{"d": pay_variant, "vi": pay_idx}, {"f": 0, "n": "0"}]}
-        entry = inline_closure(ck, args[-1], [pay_place], dest, cont, ln)
+        if wrap_some:
+            # the closure's value goes into a fresh local, then dest = Some(that)
+            rl = new_local("?")
+            b_wrap = add_block([{"p": copy.deepcopy(dest), "rv": {"r": "agg", "k": "adt", "adt": opt, "adtn": "std::option::Option", "v": "Some", "fn": ["0"],
+                                                                   "fields": [{"m": {"l": rl}}]}, "ln": ln, "x": False}], {"t": "goto", "to": cont})
+            entry = inline_closure(ck, args[-1], [pay_place], {"l": rl}, b_wrap, ln)
+        else:
+            entry = inline_closure(ck, args[-1], [pay_place], dest, cont, ln)
         if entry is None:
             continue
-        b_other = add_block([{"p": copy.deepcopy(dest), "rv": {"r": "use", "o": other}, "ln": ln, "x": False}], {"t": "goto", "to": cont})
+        if other == "none":
+            b_other = add_block([{"p": copy.deepcopy(dest), "rv": copy.deepcopy(none_agg), "ln": ln, "x": False}], {"t": "goto", "to": cont})
+        else:
+            b_other = add_block([{"p": copy.deepcopy(dest), "rv": {"r": "use", "o": other}, "ln": ln, "x": False}], {"t": "goto", "to": cont})
         b_unr = add_block([], {"t": "unreachable"})
         d = new_local("isize")
         blocks[bi]["s"].append({"p": {"l": d}, "rv": {"r": "discr", "p": {"l": ol}, "adt": adt}, "ln": ln, "x": False})
         cases = [[pay_idx, entry], [1 - pay_idx, b_other]]
         blocks[bi]["t"] = {"t": "switch", "o": {"m": {"l": d}}, "cases": sorted(cases), "else": b_unr, "ty": "isize", "ln": ln, "x": False, "inl": kind}
     return f
+
+
+def directly_called_only(prog, key):
+    """Closures created in `key` whose value is used for nothing but direct calls (`let f = |x| ..; f(a); f(b)`): with the
+    calls expanded in place (deep_splice only=("call",)) their bodies need no analysis of their own."""
+    f = prog.fn(key)
+    out = set()
+    clos = {}
+    for b in f["blocks"]:
+        for s in b["s"]:
+            rv = s.get("rv")
+            if rv and rv["r"] == "agg" and rv.get("k") == "closure" and not s["p"].get("p"):
+                clos[s["p"]["l"]] = rv.get("def")
+    if not clos:
+        return out
+    # locals that alias a closure local by reference
+    alias = {l: l for l in clos}
+    for b in f["blocks"]:
+        for s in b["s"]:
+            rv = s.get("rv")
+            if rv and rv["r"] == "ref" and not rv["p"].get("p") and rv["p"]["l"] in clos and not s["p"].get("p"):
+                alias[s["p"]["l"]] = rv["p"]["l"]
+    bad = set()
+    called = set()
+    for b in f["blocks"]:
+        t = b["t"]
+        for s in b["s"]:
+            rv = s.get("rv")
+            if not rv:
+                continue
+            ls = set()
+            _locals(rv, ls)
+            for l in ls & set(alias):
+                if rv["r"] == "ref" and rv["p"]["l"] == l and not rv["p"].get("p"):
+                    continue
+                if rv["r"] == "agg" and rv.get("k") == "closure" and s["p"]["l"] == l:
+                    continue
+                bad.add(alias[l])
+        if t["t"] == "call":
+            nm = t["f"].get("name") or ""
+            for i, a in enumerate(t.get("args", [])):
+                l = _op_local(a)
+                if l in alias:
+                    if _FNCALL.search(nm) and i == 0:
+                        called.add(alias[l])
+                    else:
+                        bad.add(alias[l])
+    for l, ck in clos.items():
+        if l in called and l not in bad and ck:
+            out.add(ck)
+    return out
+
+
+def _locals(x, out):
+    if isinstance(x, dict):
+        if "l" in x and isinstance(x["l"], int):
+            out.add(x["l"])
+        for v in x.values():
+            _locals(v, out)
+    elif isinstance(x, list):
+        for v in x:
+            _locals(v, out)
